@@ -1671,10 +1671,10 @@ def gen_C15_big(rng):
     quasi-reduced (the conversion re-expands skipped levels one by one)."""
     L = ["init"]
     if rng.random() < 0.7:
-        k = rng.randint(31, 36)
+        k = rng.randint(33, 40)
         sizes = [2] * k
     else:
-        k = rng.randint(18, 24)
+        k = rng.randint(20, 26)
         sizes = [rng.choice([2, 3, 4]) for _ in range(k)]
     L.append("domain D " + " ".join(map(str, sizes)))
     L.append("forest S D set bool mt qr")
@@ -1684,7 +1684,7 @@ def gen_C15_big(rng):
         count = 1
         for sz in sizes:
             r = rng.random()
-            if r < 0.8:
+            if r < 0.9:
                 vals = list(range(sz))
             else:
                 vals = sorted(rng.sample(range(sz), rng.randint(1, sz)))
